@@ -461,10 +461,29 @@ TIE_FILES = {   # tie file -> functions of pyerrors/obs.py it needs regenerated
     "Tie_expand_deltas.v": ["_expand_deltas"],
     "Tie_merge.v": ["_expand_deltas_for_merge", "_merge_idx"],
     "Tie_inter.v": ["_intersection_idx"],
+    "Tie_reduce.v": ["_reduce_deltas"],
+    "Tie_gap.v": ["_determine_gap", "gamma_method_w_max"],
+    "Tie_kwarg.v": ["_parse_kwarg"],
+    "Tie_gamma.v": ["_expand_deltas", "_calc_gamma"],      # imports Tie_expand_deltas: list that file first
 }
 
 
 def tie_pycore(ctx, tie_files):
+    """Tie by translation + directed search of the helpers' own argument space (harness/helpers_search.py)."""
+    funcs = []
+    for tf in tie_files:
+        funcs += [f for f in TIE_FILES[tf] if f not in funcs]
+    try:
+        return _tie_pycore(ctx, tie_files)
+    finally:
+        try:
+            import helpers_search
+            helpers_search.search(ctx, funcs)
+        except Exception as e:      # the search itself must never mask the tie's verdict
+            ctx.notes.append("helper search could not run: %r" % (e,))
+
+
+def _tie_pycore(ctx, tie_files):
     """Regenerate the named helper functions of pyerrors/obs.py as Gallina definitions (translate/t_pycore.py), compile them and
     re-prove the tie theorems `regenerated definition = hand-written model` (coq/props/Tie_*.v).  Every theorem is an obligation of
     the calling check; a construct outside the translator's subset or a proof that no longer goes through is a broken tie."""
